@@ -567,12 +567,15 @@ func (w *worker[T, JobType]) start() error {
 		return ErrNotRunningWorker
 	}
 
+	// the context listener stops the worker as soon as its context is done; it
+	// is started last, when the worker is Running, so that a context that is
+	// already cancelled finds a worker Stop() accepts
+	defer w.goListenToContext()
 	defer w.notifyToPullNextJobs()
 	defer w.status.Store(running)
 
 	w.goEventLoop()
 	w.goRemoveIdleWorkers()
-	w.goListenToContext()
 
 	// init the first worker by default
 	w.pool.PushNode(w.initPoolNode())
